@@ -371,6 +371,8 @@ class Evaluator:
         return out
 
     def as_cond(self, v):
+        if isinstance(v, tuple) and v and v[0] == "exists":
+            return v
         if isinstance(v, tuple) and v and _w(v) == 1:
             return v
         return ("opaque", "cond", 1)
@@ -591,6 +593,8 @@ class Evaluator:
                 return ("load", w, ptr)
             if isinstance(ptr, tuple) and ptr and ptr[0] == "obj":
                 return ("obj", "*" + ptr[1], ty)
+            if _w(ptr) == 64:
+                return ("objat", ptr, ty)
             return ("opaque", "deref", w)
         return ("opaque", "place", 0)
 
@@ -861,13 +865,13 @@ class Evaluator:
         if path in self.F.fns and self.F.fns[path].get("thir") and not self.opaque_calls(path) and self.inline_pred(path):
             return self.inline_fn(path, vals, n, s)
         w = self.bits(n["ty"])
-        eff = ("call", path, tuple(vals))
-        s2 = s.effect(eff)
         if w:
-            return [(("call", path, tuple(vals), w, self.fresh()), s2)]
-        if n["ty"] == "()":
-            return [(UNIT, s2)]
-        return [(("obj", "%s#%d" % (_short_path(path), self.fresh()), n["ty"]), s2)]
+            res = ("call", path, tuple(vals), w, self.fresh())
+        elif n["ty"] == "()":
+            res = UNIT
+        else:
+            res = ("obj", "%s#%d" % (_short_path(path), self.fresh()), n["ty"])
+        return [(res, s.effect(("call", path, tuple(vals), res)))]
 
     def inline_fn(self, path, vals, n, s):
         if s.depth >= self.max_depth:
@@ -1073,7 +1077,9 @@ def m_fetch_add(ev, vals, n, s, path, gens):
     w = ev.bits(n["ty"])
     a = vals[0]
     addr = None
-    if isinstance(a, tuple) and a and a[0] == "load":
+    if isinstance(a, tuple) and a and a[0] == "objat":
+        addr = a[1]
+    elif isinstance(a, tuple) and a and a[0] == "load":
         addr = a[2]
     elif isinstance(a, tuple) and a and a[0] == "obj" and a[1].startswith("*"):
         addr = ("v", a[1][1:], 64)
@@ -1177,3 +1183,46 @@ def m_fmt(ev, vals, n, s, path, gens):
     if path.endswith("Error::other") or path.endswith("Error::new"):
         return [(("obj", "error", n["ty"]), s)]
     return [(("obj", "fmt", n["ty"]) if n["ty"] != "()" else UNIT, s)]
+
+
+@suffix_model(r"^core::iter::Iterator::any$|Iterator>::any$")
+def m_any(ev, vals, n, s, path, gens):
+    """`iter.any(|x| pred(x))` with a pure closure: exists-quantified condition over a symbolic element"""
+    it, f = vals[0], vals[1]
+    it = ev.deref_val(it, s)
+    if not (isinstance(f, tuple) and f and f[0] == "clo"):
+        return None
+    src = it
+    while isinstance(src, tuple) and src and src[0] == "obj" and "#" in src[1]:
+        break
+    fn = ev.F.fns.get(f[1])
+    if fn is None:
+        return None
+    pty = fn["thir"]["params"][-1]["ty"]
+    elem_ty = re.sub(r"^&('\w+ )?(mut )?", "", pty)
+    name = "elem(%s)" % (it[1] if isinstance(it, tuple) and it and it[0] == "obj" else "?")
+    base = re.sub(r"<.*>$", "", norm_path(elem_ty))
+    if base.endswith("ops::Range"):
+        w = ev.bits(re.sub(r"^.*<(.*)>$", r"\1", elem_ty)) or 64
+        elem = struct("core::ops::Range", "Range", (("start", T.V(name + ".start", w)), ("end", T.V(name + ".end", w))))
+    else:
+        elem = ev.sym_for(name, elem_ty)
+    r = ev.run_fn(f[1], [elem], St(env=s.env, depth=s.depth + 1), depth=s.depth + 1)
+    if not r or len(r) != 1 or r[0][1].effects or r[0][1].conds:
+        disj = T.FALSE
+        if not r:
+            return None
+        for v, st2 in r:
+            if st2.effects:
+                return None
+            c = T.TRUE
+            for x in st2.conds:
+                c = T.land(c, x)
+            disj = T.lor(disj, T.land(c, ev.as_cond(v)))
+        return [(("exists", name, disj), s)]
+    return [(("exists", name, ev.as_cond(r[0][0])), s)]
+
+
+@suffix_model(r"HashSet<T, S, A>::iter$|HashMap<K, V, S, A>::iter$|slice::<impl \[T\]>::iter$|IntoIterator>::into_iter$")
+def m_iter(ev, vals, n, s, path, gens):
+    return [(ev.deref_val(vals[0], s), s)]
